@@ -275,15 +275,25 @@ def audit(prop):
     """Forbidden-token grep + #print axioms for every listed theorem."""
     problems = []
     scanned = 0
-    for root, _, files in os.walk(os.path.join(LEAN_DIR, 'TddaVerif')):
-        for fn in files:
-            if fn.endswith('.lean'):
-                p = os.path.join(root, fn)
-                src = strip_comments(open(p, encoding='utf-8').read())
-                scanned += 1
-                m = FORBIDDEN.search(src)
-                if m:
-                    problems.append('forbidden token %r in %s' % (m.group(0).strip(), os.path.relpath(p, LEAN_DIR)))
+    # every project file the property's modules import, transitively
+    todo = list(prop.lean_modules)
+    seen = set()
+    while todo:
+        mod = todo.pop()
+        if mod in seen or not mod.startswith('TddaVerif'):
+            continue
+        seen.add(mod)
+        p = os.path.join(LEAN_DIR, *mod.split('.')) + '.lean'
+        if not os.path.exists(p):
+            problems.append('module %s has no source file' % mod)
+            continue
+        raw = open(p, encoding='utf-8').read()
+        todo += re.findall(r'^import\s+(\S+)', raw, re.M)
+        src = strip_comments(raw)
+        scanned += 1
+        m = FORBIDDEN.search(src)
+        if m:
+            problems.append('forbidden token %r in %s' % (m.group(0).strip(), os.path.relpath(p, LEAN_DIR)))
     axioms = {}
     if prop.theorems:
         mods = sorted(set(prop.lean_modules))
